@@ -11,6 +11,8 @@
     drop <h> [bombs=<csv>]                                  the owner is dropped
     outcomes ::= csv of `r<nat>` (returned value / id produced) and `p` (panic); `-` = empty
 
+  Vectors of kind `rev` (`MutBumpVecRev`) are run on `Coll/Rev.lean`; `ids=` is what `as_slice()` shows.
+
   Answers (compared verbatim with what the harness observed on the real types):
     new  → `ok`
     op   → `ids=<csv> len=<n> cap=<c> drops=<csv> esc=<csv> exit=<ret[:v]|panic|panic:drop> used=<k>`
